@@ -25,7 +25,7 @@ def gen(c):
         for adl, ml in cases + extra:
             k = pattern(rng, klen); n = pattern(rng, 16); ad = pattern(rng, adl); m = pattern(rng, ml)
             ch = ','.join(map(str, chunks(rng, ml, rate)))
-            tape = rng.choice(['zero', 'ones', 'rand', 'rand', 'alt', 'const'])
+            tape = rng.choice(['zero', 'ones', 'rand', 'rand', 'alt', 'const', 'Frand'])     # Frand: the system source fails, the result must be the same
             line = 'aead.enc scheme=%s k=%s n=%s ad=%s m=%s fam=%s chunks=%s inplace=%d null_if_empty=%d align=%d oalign=%d tape=%s tapedata=%s ba_noad=%d' % (
                 sc, hx(k), hx(n), hx(ad), hx(m), FAMS, ch, rng.randrange(2), rng.randrange(2), rng.randrange(8), rng.randrange(8),
                 tape, hx(pattern(rng, 8, 'rand')), rng.randrange(2))
